@@ -12,7 +12,9 @@ unset GOARCH
 REPO=${VERIF_REPO:-/repo}
 BIN=$VERIF/bin/cqoscheck
 if [ ! -x "$BIN" ] || [ -n "$(find "$VERIF/checker" -name '*.go' -newer "$BIN" 2>/dev/null | head -1)" ]; then
-  (cd "$VERIF/checker" && go build -o "$BIN" .) || { echo "checker build failed"; exit 2; }
+  # build beside the target and rename, so that checks running in parallel never see a missing or half-written binary
+  mkdir -p "$VERIF/bin"
+  (cd "$VERIF/checker" && go build -o "$BIN.$$" . && mv -f "$BIN.$$" "$BIN") || { rm -f "$BIN.$$"; echo "checker build failed"; exit 2; }
 fi
 if [ "$TIER" = quick ]; then
   exec "$BIN" -property "$ID" -tier quick -repo "$REPO" -evidence "$VERIF/evidence" -known "$VERIF/known_findings.json"
